@@ -233,13 +233,18 @@ def Coll.insertCore (E : Env) (c : Coll) (l : Loaded) (o : Obj) (commit : Bool) 
       let c := if !l.settings.async.isSome && commit then c.commit l else c
       (c, .ok l)
 
-/-- `DB.InsertOrUpdate(o)` -/
-def Coll.insert (E : Env) (c : Coll) (o : Obj) : Coll × Res Unit :=
+/-- `db.initialize(o)`: an object without identifier receives the one drawn by the uuid
+    generator (`fresh`); an identified object keeps its own -/
+def assignNew (o : Obj) (fresh : Nat) : Obj := if o.uuid == 0 then { o with uuid := fresh } else o
+
+/-- `DB.InsertOrUpdate(o)`: Transform, case transforms, Validate, then (identifier,
+    serialisation, constraints, file, index, cache, commit) -/
+def Coll.insert (E : Env) (c : Coll) (o : Obj) (fresh : Nat) : Coll × Res Unit :=
   match c.schema with
   | (c, .ok l) =>
     let o := E.canon l.descs (E.transform o)
     if !E.validate o then (c, .err .invalid) else
-    match Coll.insertCore E c l o true with
+    match Coll.insertCore E c l (assignNew o fresh) true with
     | (c, .ok _) => (c, .ok ())
     | (c, .err e) => (c, .err e)
     | (c, .panic) => (c, .panic)
